@@ -16,6 +16,13 @@ import PV.Proofs.CCodeValue
   * `ccode_value_int_partial`: on the integer fragment the C value of the emitted structure is the
     evaluator's value; false for a remainder operand of a product and for `x**2` as a divisor:
     `ccode_value_int_cex`, `ccode_value_int_pow_cex`.
+  * `ccode_value_c_partial`: the same for the enlarged fragment `cFrag` (comparisons, `?:`,
+    `&&`/`||`/`!`, `&`/`^`/`|`/`~`, shifts, two-operand `min`/`max` on top of the arithmetic part),
+    with Python's `True`/`False` read as C's 1/0; `ccode_parens_sufficient`: on that fragment C's
+    grammar groups the emitted text exactly as the tree (`c_reading_of_wellformed`: then the C
+    value is the tree's value).  False for a bitwise operand of a comparison
+    (`ccode_value_c_cmp_bitwise_cex`) and for one-operand `and`/`or`
+    (`ccode_value_c_one_operand_cex`).
 -/
 namespace PV.C14
 open PV
@@ -211,11 +218,56 @@ theorem ccode_value_int_partial (hS : S.sum < S.product ∧ S.product < S.power)
     (hfrag : intFrag e = true) (hrun : ccode S st e = .ok (d, refs, st'))
     (hv : denN env e = some v) :
     denC env d = some v ∧ den env e = .ok (.int v) :=
-  ⟨(value_core env S hS _ st e _ d refs st' v hfrag hrun hv).val, denN_sound env e v hv⟩
+  ⟨value_denC env S false hS (fun h => by cases h) e st d refs st' (.i v)
+      (intFrag_cFragM e hfrag) hrun (denN_denV env e v hv),
+    denN_sound env e v hv⟩
+
+/-- **C's grammar groups the emitted text as the tree** (enlarged fragment).  Let `e` be in `cFrag`:
+the arithmetic part of `intFrag`, shifts, comparisons whose operands are not bitwise operations,
+`&`/`^`/`|`/`and`/`or` of at least two operands, `not`, `~`, `If` (printed `(c ? t : e)`), `Min`/`Max`
+of two operands (printed `min(a, b)`), nested in any way.  Then for EVERY allocator state and
+whatever the values are, the emitted structure `d` is well formed for C's ten levels of
+left-associative binary operators (`cwf`): every infix operator has, to its left, only exposed
+operators binding at least as tightly and, to its right, only operators binding tighter or
+regroupable ones of its own level (`+ -`, `*`, `&`, `^`, `|`, `&&`, `||`), and prefix operators are
+applied to primaries — the parentheses the mapper writes are sufficient. -/
+theorem ccode_parens_sufficient (hS : PrecA S ∧ PrecB S) (e : Expr) (st : CSt) (d : Doc)
+    (refs : List String) (st' : CSt) (hfrag : cFrag e = true)
+    (hrun : ccode S st e = .ok (d, refs, st')) : cwf d = true :=
+  (value_core [] S true hS.1 (fun _ => hS.2) _ st e _ d refs st' hfrag hrun).1.wf
+
+/-- **C's reading of a well-formed text is the value of its tree**: grouping the flat chain of
+primaries and binary operators around the last operator of the lowest precedence (C99 6.5.5 –
+6.5.14), with short-circuit `&&`/`||` and lazy `?:`, gives the value obtained by evaluating the
+structure node by node. -/
+theorem c_reading_of_wellformed (env : Env) (d : Doc) (h : cwf d = true) :
+    denC env d = denT env d := denC_eq_denT env d h
+
+/-- **Generated C computes the evaluator's value (C-expressible integer fragment).**  Let `e` be
+in `cFrag` and let `denV env e = some w`: the evaluation succeeds on integer variables with every
+`//` and `%` applied to a non-negative dividend and a positive divisor, every `<<`/`>>` to a
+non-negative value and an amount in `0 … 4096`, every `&`, `^`, `|` to non-negative operands,
+`and`/`or`/`If` evaluating only the operands Python evaluates (unbounded ints: no overflow).  Then
+for EVERY allocator state the text the mapper emits denotes, under C's reading (ten levels of
+left-associative binary operators, truncating `/` `%`, 0/1-valued comparisons and `!`,
+short-circuit `&&`/`||`, lazy `?:`, `min`/`max` of two ints), the number `w.toInt`, and `w` is the
+evaluator's value: the same int where Python has an int, and 1 / 0 where Python has `True` /
+`False`. -/
+theorem ccode_value_c_partial (hS : PrecA S ∧ PrecB S) (env : Env) (e : Expr) (st : CSt) (d : Doc)
+    (refs : List String) (st' : CSt) (w : CVal) (hfrag : cFrag e = true)
+    (hrun : ccode S st e = .ok (d, refs, st')) (hv : denV env e = some w) :
+    denC env d = some w.toInt ∧ den env e = .ok w.toValue :=
+  ⟨value_denC env S true hS.1 (fun _ => hS.2) e st d refs st' w hfrag hrun hv,
+    denV_sound env e w hv⟩
 
 /-- the precedence table of the repository satisfies the hypothesis -/
 theorem printPrec_ok : Generated.printPrec.sum < Generated.printPrec.product ∧
     Generated.printPrec.product < Generated.printPrec.power := by decide
+
+/-- … and the hypothesis of the enlarged fragment: Python's order of all levels -/
+theorem printPrec_ok_full : PrecA Generated.printPrec ∧ PrecB Generated.printPrec := by
+  unfold PrecA PrecB
+  decide
 
 /-- the text and the C value (`denC`) of what the mapper emits for `e` in a fresh state -/
 def cText (e : Expr) : Option String :=
@@ -256,6 +308,58 @@ example :
       .bin .rem (.var "a") (.var "b")]
     intFrag e = true ∧ denN envABC e = some 7 ∧
       cText e = some "c + a % b + (a * x * x/(b + 1)) - b" ∧ cValue envABC e = some 7 := by
+  decide
+
+/-! ### the enlarged fragment: witnesses and non-vacuity -/
+
+def envBits : Env := [("a", .int 6), ("b", .int 3), ("c", .int 5), ("x", .int 5)]
+
+/-- **false for a bitwise operand of a comparison**: `(a & b) < c` is emitted as `a & b < c` (Python's
+precedences), which C reads as `a & (b < c)`: 0 instead of `True`; likewise for `|` and `^`. -/
+theorem ccode_value_c_cmp_bitwise_cex :
+    (∃ (env : Env) (e : Expr), cText e = some "a & b < c" ∧ den env e = .ok (.bool true) ∧
+      cValue env e = some 0) ∧
+    (∃ (env : Env) (e : Expr), cText e = some "c | b < a" ∧ den env e = .ok (.bool false) ∧
+      cValue env e = some 5) ∧
+    (∃ (env : Env) (e : Expr), cText e = some "a ^ b < c" ∧ den env e = .ok (.bool false) ∧
+      cValue env e = some 7) := by
+  refine ⟨⟨envBits, .cmp .lt (.nary .band [.var "a", .var "b"]) (.var "c"), by decide, ?_, by decide⟩,
+    ⟨envBits, .cmp .lt (.nary .bor [.var "c", .var "b"]) (.var "a"), by decide, ?_, by decide⟩,
+    ⟨envBits, .cmp .lt (.nary .bxor [.var "a", .var "b"]) (.var "c"), by decide, ?_, by decide⟩⟩
+  · exact denV_sound _ _ (.b true) (by decide)
+  · exact denV_sound _ _ (.b false) (by decide)
+  · exact denV_sound _ _ (.b false) (by decide)
+
+/-- **false for `and` / `or` of one operand**: `LogicalAnd((x,))` is emitted as `x`: 5 in C, `True` for
+the evaluator (`all([5])`). -/
+theorem ccode_value_c_one_operand_cex :
+    ∃ (env : Env) (e : Expr), cText e = some "x" ∧ den env e = .ok (.bool true) ∧
+      cValue env e = some 5 := by
+  refine ⟨envBits, .nary .land [.var "x"], by decide, ?_, by decide⟩
+  exact denV_sound _ _ (.b true) (by decide)
+
+set_option maxRecDepth 16000 in
+/-- non-vacuity of `ccode_value_c_partial` / `ccode_parens_sufficient`: every new shape occurs
+(comparison, `?:`, `&&`, `||`, `!`, `~`, `&`, `^`, `|`, shifts, `min`, `max`, nested chains of one
+level); text and value as computed by gcc; the `and` does not evaluate `a // (x - 5)` -/
+example :
+    let e : Expr := .ite
+      (.nary .land [.cmp .ne (.var "x") (.const (.int 5)),
+        .cmp .gt (.bin .floordiv (.var "a") (.nary .sum [.var "x", .const (.int (-5))])) (.const (.int 1))])
+      (.const (.int 0))
+      (.nary .sum [
+        .nary .bor [.nary .band [.var "a", .nary .band [.var "b", .var "c"]],
+                    .nary .bxor [.var "a", .bin .lshift (.var "b") (.const (.int 2))]],
+        .nary .prod [.un .lnot (.nary .lor [.cmp .le (.var "a") (.var "b"), .un .lnot (.var "c")]),
+                     .un .bnot (.bin .rshift (.var "a") (.const (.int 1)))],
+        .nary .min [.var "a", .nary .max [.var "b", .bin .rem (.var "c") (.const (.int 3))]],
+        .cmp .eq (.cmp .lt (.var "b") (.var "a")) (.const (.int 1))])
+    cFrag e = true ∧ denV envBits e = some (.i 10) ∧
+      cText e = some "(x != 5 && (a/(x + -5)) > 1 ? 0 : min(a, max(b, c % 3)) + (a & b & c | a ^ b << 2) + ((b < a) == 1) + !(a <= b || !c) * ~(a >> 1))" ∧
+      cValue envBits e = some 10 ∧
+      (match ccode Generated.printPrec {} e with
+        | .ok (d, _, _) => cwf d
+        | .error _ => false) = true := by
   decide
 
 /-! non-vacuity: a history with shared wrappers, repeated prefixes, equal children under different
